@@ -206,7 +206,7 @@ def _spec(ctx, **kw):
 
 def _field_kw(rng, nvdim, dtype, need_dtype=False):
     kw = {"vdims": gen.rand_vdims(rng, nvdim)}
-    if need_dtype or dtype in ("complex",) or rng.random() < 0.5:
+    if need_dtype or rng.random() < 0.5:
         kw["dtype"] = NP_DTYPE[dtype]
     if rng.random() < 0.3:
         kw["unit"] = "A/m"
@@ -343,6 +343,25 @@ def basic(ctx):
                   note="overwriting the caller's array afterwards changed the field",
                   shares_memory=bool(np.shares_memory(f.array, piece.value)), **info)
     observe(ctx, f, spec, info)
+    if "dtype" not in kw and rng.random() < 0.4:
+        # history: a field that declares no dtype is given a specification of another kind
+        # of number afterwards (real -> complex, float -> int, ...): what is stored is the
+        # new specification, not the new specification squeezed into the old kind
+        dtype2 = gen.pick(rng, [d for d in ("float", "int", "complex", "bool") if d != dtype])
+        skind2 = gen.pick(rng, ["const", "array"])
+        piece2 = {"const": const_piece, "array": array_piece}[skind2](rng, spec, nvdim, dtype2)
+        how2 = gen.pick(rng, ["update", "array="])
+        info2 = dict(info, respecified_with=dtype2, spec2=skind2, how2=how2)
+        if how2 == "update":
+            ok, _ = ctx.expect_ok("C02.accepted." + skind2,
+                                  lambda: f.update_field_values(piece2.value), what=info2)
+        else:
+            ok, _ = ctx.expect_ok("C02.accepted." + skind2,
+                                  lambda: setattr(f, "array", piece2.value), what=info2)
+        if ok and _check_shape(ctx, f, spec, nvdim, info2):
+            okc = _matches(f.array, piece2.exp, piece2.tol)
+            ctx.check("C02.value." + skind2, bool(np.all(okc)),
+                      **({} if np.all(okc) else _first_bad(okc, f.array, piece2.exp)), **info2)
 
 
 # ----------------------------------------------------------------------------- kind 1
